@@ -18,6 +18,8 @@ open Ncsd
 open Sd
 open Ivfc
 open IvfcWrite
+open Dpfs
+open IvfcRead
 open Driver_base
 
 let opt f = function None -> "-" | Some x -> f x
@@ -273,6 +275,33 @@ let run_ivfcw toks =
     String.concat " " (Stdlib.List.map (fun l -> hex_of_bytes l.lv_data) t) ^ " " ^ hex_of_bytes (Stdlib.List.concat m)
   | _ -> failwith "ivfcw args"
 
+(* dpfsread <lv1 data> <selector> <lv2 data> <bs2> <lv3 area> <size3> <bs3> pos,n ...  ->  hex per read ("-" for empty) *)
+let run_dpfsread toks =
+  match toks with
+  | l1 :: sel :: l2 :: bs2 :: l3 :: size3 :: bs3 :: reqs ->
+    let d1 = bytes_of_hex l1 and d2 = bytes_of_hex l2 and d3 = bytes_of_hex l3 in
+    String.concat " " (Stdlib.List.map (fun t -> match String.split_on_char ',' t with
+      | [p; n] -> let r = dpfs_read d1 (z_of_hex sel) d2 (z_of_hex bs2) d3 (z_of_hex size3) (z_of_hex bs3) (z_of_hex p) (z_of_hex n) in
+                  if r = [] then "-" else hex_of_bytes r
+      | _ -> failwith "req") reqs)
+  | _ -> failwith "dpfsread args"
+
+(* lv4read <verify 0/1> <bs1..bs4> <L1..L4> <master> pos,n ...  ->  hex per read *)
+let run_lv4read toks =
+  match toks with
+  | v :: b1 :: b2 :: b3 :: b4 :: l1 :: l2 :: l3 :: l4 :: mh :: reqs ->
+    let lv d b = { lv_data = bytes_of_hex d; lv_bs = z_of_hex b } in
+    let tree = [lv l1 b1; lv l2 b2; lv l3 b3; lv l4 b4] in
+    let rec chunks l = match l with [] -> [] | _ ->
+      let rec take n l = if n = 0 then ([], l) else match l with [] -> ([], []) | x :: r -> let (a, b) = take (n - 1) r in (x :: a, b) in
+      let (h, r) = take 32 l in h :: chunks r in
+    let master = chunks (bytes_of_hex mh) in
+    String.concat " " (Stdlib.List.map (fun t -> match String.split_on_char ',' t with
+      | [p; n] -> let r = lv4_read sha256 tree master (bool_of_tok v) (z_of_hex p) (z_of_hex n) in
+                  if r = [] then "-" else hex_of_bytes r
+      | _ -> failwith "req") reqs)
+  | _ -> failwith "lv4read args"
+
 (* ---- C16: closing ------------------------------------------------------ *)
 let run_close toks =
   match toks with
@@ -409,6 +438,8 @@ let dispatch (line : string) : string =
   | "sdkey" :: toks -> run_sdkey toks
   | "ivfc" :: toks -> run_ivfc toks
   | "ivfcw" :: toks -> run_ivfcw toks
+  | "dpfsread" :: toks -> run_dpfsread toks
+  | "lv4read" :: toks -> run_lv4read toks
   | "close" :: toks -> run_close toks
   | "nandhdr" :: toks -> run_nandhdr toks
   | "lzss" :: toks -> run_lzss toks
